@@ -212,7 +212,20 @@ func synTraceLines(hs []*synHistory, dbg bool, gmap map[int]int) ([]byte, []int)
 // validateSynTraces validates recorded histories against LRParse (over the real tables, or
 // over the canonical LR(1) tables when ideal is set). Returns the rejected histories with
 // the model state at the point of rejection.
-func (c *Ctx) validateSynTraces(cases []*SynCase, hs []*synHistory, ideal, dbg bool) []*synHistory {
+func (c *Ctx) validateSynTraces(cases []*SynCase, hsAll []*synHistory, ideal, dbg bool) []*synHistory {
+	// histories that were never run (the driver was ended by the watchdog again and again before
+	// their turn) say nothing: they are counted, not validated
+	var hs []*synHistory
+	for _, h := range hsAll {
+		if len(h.Events) > 0 && len(h.Events[0]) == 1 && h.Events[0][0]["ev"] == "notrun" {
+			c.Add("histories_not_run_after_repeated_hangs", 1)
+			continue
+		}
+		hs = append(hs, h)
+	}
+	if len(hs) == 0 {
+		return nil
+	}
 	// large sets of histories are validated in parallel chunks (one TLC each, one worker each:
 	// a trace specification is a line, not a graph); each chunk sees only the tables it needs
 	nchunks := len(hs)/600 + 1
@@ -454,8 +467,8 @@ func (g *SynGrammar) randomSentenceP(rng *rand.Rand, maxLen, maxDepth int, pRec 
 			if len(out) > 4*maxLen+20 && pump < 0 {
 				return false
 			}
-			if len(out) > 600 {
-				return false
+			if len(out) > 220 {
+				return false // every token costs several events; one Parse is cut off at MaxEvents
 			}
 		}
 		return true
@@ -506,13 +519,13 @@ func synInputs(rng *rand.Rand, g *SynGrammar, k, cap, nSent int, withInvalid boo
 	}
 	// two deep sentences: recursion chains longer than the parser has states
 	for i := 0; i < 2; i++ {
-		if s, ok := g.randomSentenceD(rng, 60+rng.Intn(60), 90, 0.95); ok && len(s) > 24 {
+		if s, ok := g.randomSentenceD(rng, 40+rng.Intn(40), 90, 0.95); ok && len(s) > 24 {
 			all = append(all, s)
 		}
 	}
 	// and two pumped ones
 	for i := 0; i < 2; i++ {
-		if s, ok := g.randomSentencePump(rng, 40); ok {
+		if s, ok := g.randomSentencePump(rng, 36); ok {
 			all = append(all, s)
 		}
 	}
